@@ -275,6 +275,9 @@ impl BaseBindingsGenerator for ZodBindingsGenerator {
         analyzer: &CommandAnalyzer,
         config: &GenerateConfig,
     ) -> Result<Vec<String>, Box<dyn std::error::Error>> {
+        // Types replaced by a type mapping are never declared
+        let discovered_structs = &TypeCollector::without_mapped_types(discovered_structs, config);
+
         // Store known structs for reference
         self.collector.known_structs = discovered_structs.clone();
 
